@@ -6,6 +6,7 @@ from .common import *
 from .isomsg import *
 
 PROPERTY = 'C17'
+DEBUG_LOG = ['writer/1rec/latin_1/blocked']      # obligations that are also explored with debug logging switched on
 PYTHON_O = ['writer/1rec/latin_1/blocked', 'writer/1rec/latin_1/unblocked', 'invalid/short', 'invalid/first-length']      # obligations that are also explored with the modules compiled as under python -O
 ASSUMPTIONS = [
     'files are produced by the real IpmWriter on a RopeFile from symbolic messages (few, long records: lengths symbolic so that files span 1..9 blocks)',
@@ -92,7 +93,8 @@ def invalid_length():
         core.set_fallback(rp, 'C17/concretised')
         with guard('ipm_info', 'C17/exception', rp):
             info = m.ipm_info(f)
-        mx = M().config.config.get('MAX_VBS_RECORD_LENGTH', 6000)
+        from . import packaged
+        mx = packaged.MAX_VBS_RECORD_LENGTH
         if L > mx:
             require(is_false(info.get('isValidIPM')) and info.get('reason'), 'first length above the maximum not reported invalid', key='C17/maxlen', replay=rp)
         else:
